@@ -7,7 +7,7 @@ CORE = ["Base", "Strings", "Num", "Builtins", "Interp", "Machine", "Spec"]
 REFINE = CORE + ["HeapFacts", "Refine1", "Refine2", "Refine3", "Refine4"]
 PROPS = {
  "C02": dict(needs=REFINE + ["FuelMono", "LinkStack", "Scope", "RunG", "SeqProofs", "CallRules", "LinkKinds"], gen=["GenStack", "GenKinds"], slices=[("slices_core", "reference_ranges"), ("slices_core", "core_programs"), ("slices_core", "small_core"), ("slices_core", "closure_factories"), ("slices_values", "c02_callables"), ("slices_values", "c02_function_values"), ("slices_core", "spec_vs_machine")]),
- "C03": dict(needs=REFINE + ["RelA", "RelB", "RelC", "RunG", "ShortCircuit", "DictLazy", "SeqProofs", "CallRules"], gen=[], slices=[("slices_lazy", "c03_bombs"), ("slices_core", "core_programs")]),
+ "C03": dict(needs=REFINE + ["RelA", "RelB", "RelC", "RunG", "ShortCircuit", "DictLazy", "DictLink", "SeqProofs", "CallRules"], gen=[], slices=[("slices_lazy", "c03_bombs"), ("slices_core", "core_programs")]),
  "C05": dict(needs=REFINE + ["LinkStack", "Progress", "RunG", "FuelMono", "Float", "Arith", "Loops", "Loops2", "SeqProofs", "CallRules"], gen=["GenStack"], slices=[("slices_faults", "c05_ladders"), ("slices_core", "core_programs")]),
  "C07": dict(needs=REFINE + ["RunG", "Pure", "Eq", "Deep", "IOSpec", "MonadLaws"], gen=[], slices=[("slices_world", "main_many"), ("slices_core", "io_trees"), ("slices_core", "io_retry"), ("slices_faults", "io_device_faults"), ("slices_values", "shared_action_containers")]),
  "C10": dict(needs=REFINE + ["RunG", "Exc", "Deep", "LinkErr"], gen=["GenErr"], slices=[("slices_lazy", "c10_faults"), ("slices_lazy", "c10_import_faults"), ("slices_core", "core_programs")]),
